@@ -33,13 +33,14 @@ func (ctl *HTTPGroupController) Register(
 	routeConfig vhost.RouteConfig,
 ) (err error) {
 	indexKey := group
+	// lookup and join under one lock (UnRegister already holds it across the group's UnRegister)
 	ctl.mu.Lock()
+	defer ctl.mu.Unlock()
 	g, ok := ctl.groups[indexKey]
 	if !ok {
 		g = NewHTTPGroup(ctl)
 		ctl.groups[indexKey] = g
 	}
-	ctl.mu.Unlock()
 	verifhook.At("httpgroup.register.lookedup", proxyName)
 
 	return g.Register(proxyName, group, groupKey, routeConfig)
